@@ -236,6 +236,12 @@ func H_C19_stored() {
 	vok = vok && viaIns.GetList(0) == dl && viaIns.GetObject(1) == do && viaIns.GetObject(3) == do
 	vok = vok && viaTF.GetTF(".a#1") == any(dl) && viaTF.GetTF(".b.c") == any(do)
 	verifAssert(vok, "a derived value stored through any constructor or mutator (NewListOf, NewListFrom, NewObjectFrom, Insert, Replace, Add, SetTF) is handed back as the identical outer value")
+	// tree-form writes and removals that pass through a stored derived value keep it in place
+	host := NewObject("d", do, "l", dl)
+	host.SetTF(".d.extra", 1).SetTF(".l#5", 2).UnsetTF(".d.extra")
+	hostL := NewList(do, dl)
+	hostL.SetTF("#0.extra", 1).SetTF("#1#5", 2).UnsetTF("#0.extra")
+	verifAssert(host.Get("d") == any(do) && host.Get("l") == any(dl) && hostL.Get(0) == any(do) && hostL.Get(1) == any(dl), "a tree-form write below a stored derived value reuses it (the identical outer value stays stored)")
 	ok := true
 	ok = ok && pl.Get(1) == any(dl) && pl.Get(2) == any(do)
 	ok = ok && pl.GetList(1) == dl && pl.GetObject(2) == do
